@@ -76,6 +76,9 @@ ReqInit(c) ==
     finalExcused |-> FALSE,    \* a forwarding read failed after the stop request
     fwdFailed|-> FALSE,        \* a forwarding read of this session failed (its transmit-error count is then not predicted)
     tgate    |-> FALSE,        \* the driver holds the terminator's mutex (a signal is being delivered under Serve)
+    nRead    |-> 0,            \* forwarding reads on the advertiser's own paths since the last quiescent point
+    nUse     |-> 0,            \* RA generations that are called for since then: transmissions + valid RAs to compare with
+    readFail |-> FALSE,        \* one of those reads failed (its generation is then not accounted)
     invSrcs  |-> {},           \* sources of messages that failed validation (C09: they are owed nothing)
     nRA      |-> 0,            \* valid RAs received
     nHook    |-> 0,            \* consistency reports made
@@ -140,7 +143,8 @@ OnIn(m, e) ==
   ELSE IF e.hl # 255 THEN
        \* C09: counted invalid, nothing else may follow from it; does not touch the retry budget
        [m0 EXCEPT !.exp = Bump(@, "inv"), !.invSrcs = @ \cup {e.src}]
-  ELSE LET m1 == [m0 EXCEPT !.nTO = 0, !.exp = Bump(@, "rx"), !.nRA = IF e.kind = "ra" THEN @ + 1 ELSE @] IN
+  ELSE LET m1 == [m0 EXCEPT !.nTO = 0, !.exp = Bump(@, "rx"), !.nRA = IF e.kind = "ra" THEN @ + 1 ELSE @,
+                            !.nUse = IF e.kind = "ra" /\ ~m.monmode THEN @ + 1 ELSE @] IN
        IF m.monmode THEN m1
        ELSE IF e.kind = "rs" THEN
             IF e.src = UNSPEC
@@ -151,7 +155,8 @@ OnIn(m, e) ==
 
 OnFwd(m, e) ==
   IF m.inQuery THEN [m EXCEPT !.qreads = Append(@, e.val)]
-  ELSE LET m1 == IF m.retAt # -1 THEN Flag(m, "c08-ra-generation-after-return") ELSE m IN
+  ELSE LET m0 == IF m.retAt # -1 THEN Flag(m, "c08-ra-generation-after-return") ELSE m
+           m1 == [m0 EXCEPT !.nRead = @ + 1, !.readFail = @ \/ ~e.ok] IN
        IF ~e.ok
        THEN \* no RA can be generated: the transmission (or comparison) this read belongs to fails, which is a fault of the
             \* session like a failed write (and is counted as a transmit error when it was a scheduled transmission)
@@ -231,7 +236,7 @@ OnWCall(m, e) ==
             ELSE IF ~mc /\ ~m.anyHold /\ e.t - m.owedU[oi].t >= MaxRADelay THEN Flag(m, "c07-unicast-ra-late")
             ELSE IF m.body # "" /\ e.body # m.body THEN Flag(m, "c04-c08-content-other-than-lifetime-changed")
             ELSE m
-  IN [m1 EXCEPT !.nW = @ + 1, !.nOpen = @ + 1,
+  IN [m1 EXCEPT !.nW = @ + 1, !.nOpen = @ + 1, !.nUse = @ + 1,
                 !.pend = IF used = 0 THEN @ ELSE DropAt(@, used),
                 !.lastMc = IF mc /\ ~finalCand THEN e.t ELSE @,
                 !.credit = IF mc /\ ~initial THEN 0 ELSE @,
@@ -289,7 +294,11 @@ OnQuiet(m, e) ==
       m3 == IF Live(m2b) /\ ~m2b.reading /\ m2.resumeAt = -1 /\ m2.nHeld = 0 /\ m2.retAt = -1
             THEN Flag(m2b, "c09-listener-not-receiving") ELSE m2b
       m4 == IF m3.cancelAt = -1 /\ m3.nMisLog # m3.nFalse THEN Flag(m3, "c04-misconfiguration-log-lines-differ-from-generations") ELSE m3
-  IN [m4 EXCEPT !.pend = <<>>, !.nFalse = 0, !.nMisLog = 0]       \* nobody is between a forwarding read and its transmission
+      \* C09 / C04: our own RA is generated (forwarding read) only for a transmission and for the comparison with a valid
+      \* received RA; anything else - an invalid message in particular - must not set a generation off
+      m5 == IF m4.cancelAt = -1 /\ ~m4.readFail /\ m4.nRead # m4.nUse
+            THEN Flag(m4, "c04-c09-ra-generated-without-a-transmission-or-a-valid-ra") ELSE m4
+  IN [m5 EXCEPT !.pend = <<>>, !.nFalse = 0, !.nMisLog = 0, !.nRead = 0, !.nUse = 0, !.readFail = FALSE]       \* nobody is between a forwarding read and its transmission
 
 \* The driver is about to let virtual time pass (only ever at a quiescent point).
 OnAdvance(m, e) ==
